@@ -250,6 +250,30 @@ pub fn eval(ctx: &Ctx, op: &str, a: &[&str]) -> Option<String> {
             let class = if stderr.contains("panicked at") || code == 101 || code == -1 { "PANIC" } else if code == 0 { "OK" } else { "ERR" };
             Some(format!("{class}|{code}|{}", hex(&written)))
         }
+        // the same limit on a regular file given with `-o PATH` (a full disk / quota under the output file):  io.fsizeo cmd fmt p shape bits limit
+        "io.fsizeo" => {
+            use std::io::Write as _;
+            use std::process::{Command, Stdio};
+            let input = crate::npy::write_f8(&parse_nats(a[3]), &parse_bits(a[4]));
+            let path = tmp_path(ctx, a, "olim");
+            let _ = std::fs::remove_file(&path);
+            let script = "import resource,signal,os,sys\nL=int(sys.argv[1])\nsignal.signal(signal.SIGXFSZ, signal.SIG_IGN)\nresource.setrlimit(resource.RLIMIT_FSIZE,(L,L))\nos.execv(sys.argv[2], sys.argv[2:])\n";
+            let mut cmdargs: Vec<String> = vec![a[0].to_string()];
+            if a[0] == "view" { cmdargs.extend(["-O".to_string(), a[1].to_string()]); }
+            cmdargs.extend(["--precision".to_string(), a[2].to_string(), "-o".to_string(), path.clone()]);
+            let mut child = match Command::new("python3").arg("-c").arg(script).arg(a[5]).arg(&ctx.sfs_bin).args(&cmdargs).env("SFS_ALLOW_STDIN", "1").env("RUST_BACKTRACE", "0")
+                .stdin(Stdio::piped()).stdout(Stdio::piped()).stderr(Stdio::piped()).spawn() { Ok(c) => c, Err(_) => return Some("NO-PYTHON".into()) };
+            let mut si = child.stdin.take()?;
+            let _ = si.write_all(&input); drop(si);
+            let o = child.wait_with_output().ok()?;
+            let stderr = String::from_utf8_lossy(&o.stderr).into_owned();
+            let code = o.status.code().unwrap_or(-1);
+            let written = std::fs::read(&path).ok();
+            let _ = std::fs::remove_file(&path);
+            if stderr.contains("Traceback") { return Some("NO-PYTHON".into()); }
+            let class = if stderr.contains("panicked at") || code == 101 || code == -1 { "PANIC" } else if code == 0 { "OK" } else { "ERR" };
+            Some(format!("{class}|{code}|{}|{}", match &written { Some(w) => hex(w), None => "NOFILE".into() }, if o.stdout.is_empty() { "-" } else { "+stdout" }))
+        }
         // history of an output path: write a long result to PATH, then a shorter one to the same PATH, read PATH back
         //   io.overwrite fmt p shape1 bits1 shape2 bits2
         "io.overwrite" => {
@@ -415,6 +439,13 @@ fn token_pool() -> Vec<&'static str> {
 pub fn gen_c07(ctx: &Ctx, rng: &mut Rng, out: &mut Vec<String>) {
     let t = ctx.tier_thorough;
     // (a) in-process round trips
+    // more decimals than a double has significant digits (18, 20, 25, 40, 100, 400): values far below one keep their leading zeros
+    for (pi, p) in [18usize, 19, 20, 25, 40, 100, 400].into_iter().enumerate() {
+        if !t && pi % 2 == 1 { continue; }
+        let data = vec![1e-20f64, 1.5e-19, 0.001, 0.0625, 0.25, 0.6875, 4.9e-324, 1e-300, 123456.789, 0.1];
+        out.push(format!("io.textrt\t2,5\t{}\t{p}", bits(&data)));
+        out.push(format!("io.t2n2t\t2,5\t{}\t{p}", bits(&data)));
+    }
     // text longer than any block or buffer a writer is likely to use (value lines of 64 KiB and beyond)
     for (bi, (shape, p)) in [(vec![21usize, 21, 21], 6usize), (vec![9500], 5), (vec![1300], 60), (vec![70, 70, 3], 9)].into_iter().enumerate() {
         if !t && bi >= 2 { continue; }
@@ -917,6 +948,18 @@ pub fn gen_c18(ctx: &Ctx, rng: &mut Rng, out: &mut Vec<String>) {
             if total > 1024 { limits.extend([1023, 1024, 1025, total - 1024, total - 1023, total - 600]); }
             limits.retain(|l| *l <= total + 100); limits.sort(); limits.dedup();
             for (li, l) in limits.into_iter().enumerate() { if t || si < 2 || li % 2 == 0 || l + 30 > total { out.push(format!("io.fsize\t{fmt}\t{p}\t{n}\t{}\t{l}", bits(&data))); } }
+        }
+    }
+    // the same with the output going to a regular file named by `-o`: a write that fails part-way must fail the run (whatever is done
+    // about the partial file afterwards)
+    for (si, n) in [3usize, 200, 3001].into_iter().enumerate() {
+        let data: Vec<f64> = (0..n).map(|j| ((j * 5 + si) % 19) as f64 + 0.25).collect();
+        for (cmd, fmt) in [("view", "npy"), ("view", "text")] {
+            let total = if fmt == "npy" { 128 + 8 * n } else { let mut b = Vec::new(); write::Builder::default().set_format(Format::Text).set_precision(6).write(&mut b, &Scs::new(data.clone(), vec![n]).unwrap()).unwrap(); b.len() };
+            for l in [0usize, 100, total / 2, 8192, total.saturating_sub(5), total + 4096] {
+                if l == 8192 && total < 9000 { continue; }
+                out.push(format!("io.fsizeo\t{cmd}\t{fmt}\t6\t{n}\t{}\t{l}", bits(&data)));
+            }
         }
     }
     // a call set larger than the 64 KiB detection prefix: chunk boundaries before, at and after offset 65536
